@@ -43,6 +43,10 @@ Theorem C12_repeat_until : forall s d, full_score s -> 0 < d -> 0 < score_dur s 
   exists r, repeat_until s d = Some r /\ score_dur r = d.
 Proof. exact repeat_until_duration. Qed.
 
+(* ... and until duration 0: the empty score (the library's None), lasting 0 *)
+Theorem C12_repeat_until_zero : forall s, Forall (fun c => 0 <= rchord_dur c) s -> repeat_until s 0 = Some [] /\ score_dur [] = 0.
+Proof. exact repeat_until_zero. Qed.
+
 (* content of a window: get_melody_between returns exactly the notes of the part overlapping [a, b), in order, each clipped to the
    window; a note already sounding at a becomes a continuation; every other kept note keeps pitch, kind and dynamics *)
 Theorem C12_melody_window_content : forall v t a b, positive v -> a < b -> mel_between v t a b = Some (clip_list v t a b).
@@ -100,6 +104,13 @@ Theorem C12_score_rejoin : forall track s t, String.prefix "drums" track = false
   exists w1 w2, score_between s 0 0 t = Some w1 /\ score_between s 0 t (score_dur s) = Some w2 /\
     score_dur (w1 ++ w2) = score_dur s /\ sounding_of (w1 ++ w2) track = sounding_of s track.
 Proof. exact score_rejoin. Qed.
+
+(* ... and at the two ends t = 0 and t = total, where one piece is the empty window (the library's None): the other piece is the
+   window [0, b) with b at or beyond the end, which lasts and sounds exactly like the score *)
+Theorem C12_score_whole_window : forall track s b, String.prefix "drums" track = false -> full_score s -> clean_score s track ->
+  0 < score_dur s -> score_dur s <= b ->
+  exists w, score_between s 0 0 b = Some w /\ score_dur w = score_dur s /\ sounding_of w track = sounding_of s track.
+Proof. exact score_whole_window. Qed.
 
 Example C12_ex_score_rejoin :
   let nt k v du := mkTN (mkP k Abs v 0 None None) du 66 in
